@@ -450,6 +450,12 @@ class Machine:
             if v is None or not lo <= v < hi or (ty.startswith("u") and a0.startswith("-")):
                 return err(("error-token", "ParseIntError"))
             return ok(v)
+        if "borrow::Cow" in c and end in ("deref", "as_ref", "borrow", "into_owned", "to_mut"):
+            # Cow::Borrowed(x) / Cow::Owned(x): references are transparent, both stand for x
+            v0 = absint.deref(a0)
+            if isinstance(v0, Enum) and len(v0.fields) == 1:
+                return v0.fields[0]
+            return UNKNOWN
         if m("std::ops::Deref>::deref", "std::ops::DerefMut>::deref_mut", "std::ops::Deref::deref", "std::ops::DerefMut::deref_mut",
              "std::convert::AsRef::as_ref", "std::convert::AsMut::as_mut", "std::borrow::Borrow::borrow", "std::clone::Clone::clone", "std::convert::AsRef>::as_ref", "std::convert::AsMut>::as_mut",
              "std::borrow::Borrow>::borrow", "std::borrow::BorrowMut>::borrow_mut", "std::rc::Rc::new", "std::boxed::Box::new",
